@@ -374,6 +374,61 @@ pub fn gen(prop: &str, tier: &str, seed: u64, out: &mut Vec<String>) {
                 }
             }
         }
+        "C06" => {
+            for &bs in &[0u32, 1, 2, 3, 4] {
+                let sizes = hash_sizes(bs, if t { 16 } else { 6 }, if t { 300_000 } else { 100_000 });
+                for size in sizes {
+                    let b = blob_desc(&mut r, size);
+                    let chunks = (size + 1023) / 1024;
+                    let g = 1024u64 << bs;
+                    let pairs = ((size + g - 1) / g).max(1) - 1;
+                    let mut qs = query_classes(&mut r, chunks, bs);
+                    if !t {
+                        qs.truncate(7);
+                    }
+                    for q in qs {
+                        let ql = nat_list(&q);
+                        let mut cors: Vec<String> = vec!["-".into()];
+                        let n = if t { 14 } else { 4 };
+                        for _ in 0..n {
+                            let c = match r.below(7) {
+                                0 if size > 0 => {
+                                    let ch = r.below(chunks.max(1));
+                                    let pos = if r.chance(1, 2) { ch * 1024 } else { (ch * 1024 + 1023).min(size - 1) };
+                                    format!("d{pos}^{}", 1 + r.below(255))
+                                }
+                                1 if pairs > 0 => format!("o{}^{}", r.below(pairs) * 64 + r.below(64), 1 + r.below(255)),
+                                2 => format!("r{}^{}", r.below(32), 1 + r.below(255)),
+                                3 if size > 0 => format!("Zd{}:{}", r.below(size / g + 1) * g, g),
+                                4 if pairs > 0 => format!("Zo{}:64", r.below(pairs) * 64),
+                                5 if pairs > 0 && size > 0 => {
+                                    // random k-subset, k <= 4
+                                    (0..r.range(2, 5))
+                                        .map(|_| {
+                                            if r.chance(1, 2) {
+                                                format!("d{}^{}", r.below(size), 1 + r.below(255))
+                                            } else {
+                                                format!("o{}^{}", r.below(pairs * 64), 1 + r.below(255))
+                                            }
+                                        })
+                                        .collect::<Vec<_>>()
+                                        .join(",")
+                                }
+                                _ if size > 0 => format!("d{}^{}", r.below(size), 1 + r.below(255)),
+                                _ => "-".into(),
+                            };
+                            cors.push(c);
+                        }
+                        for c in cors {
+                            let store = *r.pick(SINKS);
+                            let fl = if r.chance(1, 2) { "sync" } else { "fsm" };
+                            let mode = if r.chance(2, 3) { "data" } else { "ob" };
+                            out.push(format!("valid {fl} {store} {b} {bs} {ql} {c} {mode}"));
+                        }
+                    }
+                }
+            }
+        }
         "C14" => {
             // pairs of queries selecting the same chunks
             for &bs in &[0u32, 1, 2] {
